@@ -522,6 +522,27 @@ func rulesExpansion(p *Prog, r *Report, eng *Engine) {
 					if _, isArr := t.X.Type().Underlying().(*types.Pointer); isArr {
 						continue
 					}
+					// the tail of a slice this function has just made, used only as the destination of copy
+					if _, fresh := t.X.(*ssa.MakeSlice); fresh {
+						onlyCopyDst := true
+						for _, ref := range *t.Referrers() {
+							c, ok := ref.(*ssa.Call)
+							if _, isDbg := ref.(*ssa.DebugRef); isDbg {
+								continue
+							}
+							if !ok {
+								onlyCopyDst = false
+								continue
+							}
+							if b, ok := c.Call.Value.(*ssa.Builtin); !ok || b.Name() != "copy" || c.Call.Args[0] != ssa.Value(t) {
+								onlyCopyDst = false
+							}
+						}
+						if onlyCopyDst {
+							r.OK("X2", p.shortKey(f)+"|"+instrDesc(in), p.pos(in.Pos()), "destination window of a copy into a fresh slice", "", false)
+							continue
+						}
+					}
 					key := p.shortKey(f) + "|" + instrDesc(in)
 					r.Bad("X2", key, p.pos(in.Pos()), fmt.Sprintf("%s re-slices a list of alternatives/terms inside the expansion: elements outside the bounds are lost", instrDesc(in)))
 				}
